@@ -165,6 +165,27 @@ def inputs(ctx):
                    "linkage2": rng.choice(LINKAGES), "mode2": rng.choice(MODES), "c2": rng.choice([0.33, 0.2])}
             items.append(("p%d" % k, P.tolist(), cfg))
             k += 1
+    # step-like curves with EXACT plateaus (working sets), simplified almost not at all, clustered coarsely: clusters whose
+    # slice of the reduced curve is a run of equal heights (a degenerate fit for the ranking helpers)
+    for _ in range(6 if ctx.quick else 40):
+        levels = sorted(set(round(rng.uniform(0.02, 1.0), 2) for _ in range(rng.randint(3, 5))), reverse=True)
+        y = []
+        for lv in levels:
+            y += [lv] * rng.randint(3, 7)
+            if rng.random() < 0.6:
+                y.append(round(lv * rng.uniform(0.6, 0.9), 3))
+        y = sorted(y, reverse=True)
+        P = curves.mk(np.arange(1, len(y) + 1) * 64.0, np.array(y))
+        n = len(P)
+        for s, d in rng.sample(list(itertools.product(["mp_grdp", "min_point_rdp"], DETECTORS)), 4):
+            l, m = rng.choice(pairs2)
+            sc = ({"f": "mp_grdp", "t": 0.01, "min_points": max(5, n - 4), "distance": "shortest", "cost": "smape", "order": "segment"}
+                  if s == "mp_grdp" else {"f": "min_point_rdp", "ts": [0.01, 0.001, 0.0001], "min_points": max(5, n - 4)})
+            cfg = {"simplifier": sc, "detector": d, "t1": 0.0, "t2": rng.choice([4, 5]) if d in ("menger", "lmethod") else rng.choice([3, 4]),
+                   "c": 0.33, "linkage": l, "t": rng.choice([0.2, 0.3]), "mode": m,
+                   "linkage2": rng.choice(LINKAGES), "mode2": rng.choice(MODES), "c2": 0.33}
+            items.append(("p%d" % k, P.tolist(), cfg))
+            k += 1
     return items
 
 
